@@ -59,6 +59,10 @@ def corpus(ctx):
             # one of a few selections shared by many charts of the corpus (a batch job with one selection object)
             want = rng.choice([[(0, 3)], [(0, 3), (4, 3)], [(2, 2), (0, 0)], [(1, 3), (0, 2)]])
         cases.append((text, want))
+    # two long tracks whose N 5 lines mean the same thing whatever else is being parsed at the same moment
+    for tag in ("ExpertSingle", "ExpertDrums", "HardDrums", "ExpertDoubleBass"):
+        body = "  0 = N 0 0\n" + "".join(f"  {10 * k} = N {k % 5} 0\n  {10 * k} = N 5 0\n" + ("  %d = S 0 1\n" % (10 * k) if k % 40 == 0 else "") for k in range(1, 260))
+        cases.append(("[Song]\n{\n  Resolution = 192\n}\n[SyncTrack]\n{\n  0 = TS 4\n  0 = B 120000\n}\n[Events]\n{\n}\n[" + tag + "]\n{\n" + body + "}\n", None))
     # one selection object, charts that have the wanted track, only an easier difficulty of it, or only another instrument
     head = "[Song]\n{\n  Resolution = 192\n}\n[SyncTrack]\n{\n  0 = TS 4\n  0 = B 120000\n}\n[Events]\n{\n}\n"
     sec_ = lambda tag, k: f"[{tag}]\n{{\n  {k} = N 0 0\n  {k + 50} = N 1 0\n}}\n"  # noqa: E731
